@@ -903,7 +903,8 @@ def _recs(repo, col):
     fn = fi.node
     asg = None
     for n in walk_no_nested(fn):   # the statement that joins the initial recording with the scan's outputs (whatever its target is called)
-        if isinstance(n, ast.Assign) and isinstance(n.targets[0], ast.Name) and "concatenate" in unparse(n.value) and \
+        if isinstance(n, ast.Assign) and isinstance(n.targets[0], ast.Name) and \
+                T.find(ex.term(n.value), lambda y: y.op == "mcall" and y.name == "concatenate") is not None and \
                 T.find(ex.term(n.value), lambda y: y.op == "call" and y.name == "nested_checkpoint_scan") is not None:
             asg = n
     if asg is None:
